@@ -327,10 +327,16 @@ def constructors_fingerprint(seeds):
         x = EVQEIndividual.random_individual(3, 3, True, s)
         y = EVQEIndividual.add_random_layers(x, 2, True, s)
         p = EVQEPopulation.random_population(2, 2, 4, True, s)
-        j = random_job_shop_scheduling_instance("i", 3, 3, {0.34: 0.5, 0.67: 0.25, 1.0: 0.25}, {1: 0.5, 2: 0.25, 3: 0.25}, s)
-        j2 = random_job_shop_scheduling_instance("sparse", 2, 6, 0.34, {1: 0.5, 4: 0.5}, s)  # machines without any operation
+        def jssp(*a):  # an exception is an outcome too (and must be the same one for the same arguments)
+            try:
+                return corr_C18.render(random_job_shop_scheduling_instance(*a))
+            except Exception as e:  # noqa: BLE001
+                return "exc:" + type(e).__name__
+
+        j = jssp("i", 3, 3, {0.34: 0.5, 0.67: 0.25, 1.0: 0.25}, {1: 0.5, 2: 0.25, 3: 0.25}, s)
+        j2 = jssp("sparse", 2, 6, 0.34, {1: 0.5, 4: 0.5}, s)  # machines without any operation
         out.append([repr(corr_C18.render(l0)), repr(corr_C18.render(l1)), repr(G.indiv_struct(x)), repr(G.indiv_struct(y)), repr([G.indiv_struct(i) for i in p.individuals]),
-                    repr(corr_C18.render(j)) + repr(corr_C18.render(j2))])
+                    repr(j) + repr(j2)])
     return json.dumps(out)
 
 
@@ -356,6 +362,74 @@ def constructors_case(ctx, rng, subprocess_seeds):
             a, b = json.loads(ref), json.loads(fp)
             which = sorted({["layer", "layer(prev)", "individual", "add_random_layers", "population", "jssp_instance"][k] for u, v in zip(a, b) for k in range(6) if u[k] != v[k]})
             ctx.violate(f"a random constructor depends on the process (PYTHONHASHSEED={hs})", inp, {"constructors": which}, key="constructors:hashseed")
+
+
+def history_fingerprint(specs, order, reuse):
+    """the job-shop / genome constructors called for every argument set of `specs` in the given order; `reuse`: the distribution dicts are ONE
+    object per parameter, updated in place between calls (otherwise short-lived fresh dicts).  Returns {index: rendering}."""
+    import genome_corr as G
+    from queasars.job_shop_scheduling.random_problem_instances import random_job_shop_scheduling_instance
+    from queasars.minimum_eigensolvers.evqe.evolutionary_algorithm.individual import EVQEIndividual
+    from queasars.minimum_eigensolvers.evqe.quantum_circuit.circuit_layer import EVQECircuitLayer
+
+    import corr_C18
+
+    out = {}
+    shared_a, shared_d = {}, {}
+    for i in order:
+        amount, dur, nj, nm, seed, nq = specs[i]
+        if reuse:
+            shared_a.clear(); shared_a.update({float(k): v for k, v in amount}); shared_d.clear(); shared_d.update({int(k): v for k, v in dur})
+            a, d = shared_a, shared_d
+        else:
+            a, d = {float(k): v for k, v in amount}, {int(k): v for k, v in dur}
+        try:
+            j = repr(corr_C18.render(random_job_shop_scheduling_instance(f"i{i}", nj, nm, a, d, seed)))
+        except Exception as e:  # noqa: BLE001  (e.g. a drawn amount of 0 operations) — also a function of the arguments
+            j = "exc:" + type(e).__name__
+        prev = EVQECircuitLayer.random_layer(n_qubits=nq, previous_layer=None, random_seed=seed + 1)
+        lay = EVQECircuitLayer.random_layer(n_qubits=nq, previous_layer=prev, random_seed=seed)
+        x = EVQEIndividual.add_random_layers(EVQEIndividual.random_individual(nq, 2, True, seed), 2, True, seed)
+        out[i] = j + repr(corr_C18.render(lay)) + repr(G.indiv_struct(x))
+        del a, d, j
+    return out
+
+
+HIST_SNIPPET = r'''
+import json, sys, warnings
+warnings.filterwarnings("ignore")
+sys.path.insert(0, {here!r})
+import corr_C17
+specs = json.loads({specs!r})
+print("FP=" + json.dumps(corr_C17.history_fingerprint(specs, list(reversed(range(len(specs)))), False), sort_keys=True))
+'''
+
+
+def history_case(ctx, rng, subprocess_seeds):
+    """'a function of its arguments and seed only': the same argument sets in another order, with the distribution objects reused and updated
+    in place, and in a fresh process must give the same objects (no state carried from call to call, no dependence on object identity)."""
+    specs = []
+    for _ in range(14):
+        ks = rng.sample([0.2, 0.34, 0.5, 0.67, 0.8, 1.0], 3)
+        ds = rng.sample([1, 2, 3, 4, 5, 8, 9], rng.choice([2, 2, 3]))
+        wa = rng.choice([[0.5, 0.25, 0.25], [0.25, 0.5, 0.25], [0.2, 0.2, 0.6]])
+        wd = [0.5, 0.5] if len(ds) == 2 else rng.choice([[0.5, 0.25, 0.25], [0.25, 0.25, 0.5]])
+        specs.append([list(zip(ks, wa)), list(zip(ds, wd)), rng.randint(2, 3), rng.randint(2, 4), rng.randrange(2**31), rng.randint(1, 4)])
+    inp = {"kind": "constructor_history", "specs": specs}
+    ctx.case(inp, nontrivial=True, tags=["constructor_history", f"subprocesses:{min(len(subprocess_seeds), 1)}"])
+    n = len(specs)
+    ref = history_fingerprint(specs, list(range(n)), False)
+    variants = {"the same calls in reverse order": history_fingerprint(specs, list(reversed(range(n))), False),
+                "the distribution dict objects reused and updated in place": history_fingerprint(specs, list(range(n)), True),
+                "the same calls again": history_fingerprint(specs, list(range(n)), False)}
+    for hs in subprocess_seeds[:1]:
+        fp = json.loads(run_sub(HIST_SNIPPET.format(here=HERE, specs=json.dumps(specs)), hs))
+        variants["a fresh process, reverse order"] = {int(k): v for k, v in fp.items()}
+    for what, got in variants.items():
+        bad = [i for i in range(n) if got[i] != ref[i]]
+        if bad:
+            ctx.violate("a random constructor is not a function of its arguments and seed only: " + what + " gives different objects", inp,
+                        {"argument_sets": bad, "first": {"expected": ref[bad[0]][:300], "got": got[bad[0]][:300]}}, key="constructors:history")
 
 
 def seed_order_case(ctx):
@@ -409,6 +483,7 @@ def run(ctx):
         mutation_case(ctx, rng)
     hs = [0, 1, 4242] if ctx.thorough() else [0, 4242]
     constructors_case(ctx, rng, hs)
+    history_case(ctx, rng, hs)
     for i in range(ctx.n(3, 40)):
         if ctx.out_of_time():
             break
